@@ -32,7 +32,10 @@ open Rarena.HB Rarena.Conc
 def publishSites : List Site :=
   [⟨"update_next_node", 0⟩, ⟨"optimistic_dealloc", 0⟩, ⟨"pessimistic_dealloc", 0⟩, ⟨"dealloc", 0⟩,
    ⟨"alloc_bytes_in", 1⟩, ⟨"alloc_aligned_bytes_in", 1⟩, ⟨"alloc_in", 1⟩,
-   ⟨"alloc_slow_path_optimistic", 3⟩, ⟨"alloc_slow_path_pessimistic", 1⟩, ⟨"drop", 0⟩, ⟨"clone", 0⟩]
+   ⟨"alloc_slow_path_optimistic", 3⟩, ⟨"alloc_slow_path_pessimistic", 1⟩, ⟨"drop", 0⟩, ⟨"clone", 0⟩,
+   -- `rewind` hands everything above the new cursor back to the bump region: its store of the cursor is what the next
+   -- allocator's Acquire load / CAS synchronises with
+   ⟨"rewind", 1⟩]
 
 /-- sites through which a thread takes memory (or learns that it holds the last reference) -/
 def consumeSites : List Site :=
@@ -42,7 +45,7 @@ def consumeSites : List Site :=
    ⟨"alloc_slow_path_optimistic", 3⟩, ⟨"alloc_slow_path_pessimistic", 0⟩, ⟨"alloc_slow_path_pessimistic", 1⟩,
    ⟨"discard_freelist_in", 0⟩, ⟨"discard_freelist_in", 1⟩, ⟨"discard_freelist_in", 2⟩, ⟨"discard_freelist_in", 3⟩,
    ⟨"alloc_bytes_in", 0⟩, ⟨"alloc_bytes_in", 1⟩, ⟨"alloc_aligned_bytes_in", 0⟩, ⟨"alloc_aligned_bytes_in", 1⟩,
-   ⟨"alloc_in", 0⟩, ⟨"alloc_in", 1⟩, ⟨"dealloc", 0⟩, ⟨"drop", 1⟩]
+   ⟨"alloc_in", 0⟩, ⟨"alloc_in", 1⟩, ⟨"dealloc", 0⟩, ⟨"drop", 1⟩, ⟨"rewind", 0⟩]
 
 /-- every publishing site passes an ordering that includes Release (for a CAS: the success ordering) -/
 theorem publish_sites_release : ∀ s ∈ publishSites, (s.ords.head?.map isRel) = some true := by
